@@ -15,6 +15,7 @@ pub fn run(args: &[String]) {
             "comp" => crate::comp::run_case(&line),
             "peaks" => crate::peaks::run_peaks(&line),
             "poisson" => crate::peaks::run_poisson(&line),
+            "spec" => crate::spec::run_case(&line),
             "conv" => crate::gens::run_conv(&line),
             "brain" => crate::gens::run_brain(&line),
             "brainhist" => crate::gens::run_brainhist(&line),
